@@ -171,9 +171,9 @@ type Item struct {
 	Pos string `json:"pos,omitempty"`
 }
 
-var optValues = []string{"v", "w", "7", "x", "a", "true", "v=w", "é"}
+var optValues = []string{"v", "w", "7", "x", "a", "true", "v=w", "é", " v ", "w\t"}
 var positionals = []string{"x", "y", "zz", "1", "-"}
-var exoticPositionals = []string{"", "a=b", "é", " ", "x y"}
+var exoticPositionals = []string{"", "a=b", "é", " ", "x y", " x", "y "}
 
 // itemCap stops repetitions from growing a sampled sentence beyond what the (subset-valued) group
 // semantics of the model and the backtracking of the library handle in microseconds; longer inputs are
